@@ -105,6 +105,23 @@ def da_locals(repo, functions, oid="DA.locals"):
     return obs
 
 
+def da_modules(repo, modules, oid="DA.locals", only=None):
+    """da_locals over every function (methods and nested functions included) of the listed modules;
+    `only` restricts a module to the named functions."""
+    fqs = []
+    for mname in modules:
+        m = repo.module(mname)
+        for fi in m.functions.values():
+            if only and mname in only and fi.fq not in only[mname]:
+                continue
+            fqs.append(fi.fq)
+        if only and mname in only:
+            for fq in only[mname]:
+                repo.function(fq)       # a vanished anchor is an analysis error
+    # a local whose only binding disappears turns into a global reference: resolve those too
+    return da_locals(repo, fqs, oid) + da_globals(repo, modules, oid)
+
+
 def da_globals(repo, modules, oid="DA.globals"):
     """Every global name referenced in the listed modules resolves to a module-level binding,
     an import or a builtin (symtable scoping, so comprehension variables are handled exactly)."""
@@ -188,3 +205,56 @@ def bytecode_crosscheck(repo, functions):
             raise AnalysisError("bytecode cross-check: compiler flags %s in %s as possibly unbound, the CFG analysis does not"
                                 % (sorted(missing), fq))
     return out
+
+
+def da_self_attrs(repo, classes, oid="DA.self-attrs"):
+    """Class-level definite assignment: every instance attribute that a method reads is assigned on every path through
+    __init__ that returns normally (directly or by a method __init__ calls).  A read of a never-assigned attribute is an
+    AttributeError on the first use, e.g. in the public entry point that reads it."""
+    obs = []
+    for modname, cls in classes:
+        m = repo.module(modname)
+        methods = {fi.name: fi for fi in m.functions.values() if fi.cls == cls and fi.qualname == cls + "." + fi.name}
+        init = methods.get("__init__")
+        if init is None:
+            raise AnalysisError("anchor vanished: %s.%s has no __init__" % (modname, cls))
+        class_level = set(methods)
+        for node in ast.walk(m.tree):
+            if isinstance(node, ast.ClassDef) and node.name == cls:
+                for st in node.body:
+                    if isinstance(st, ast.Assign):
+                        class_level |= {t.id for t in st.targets if isinstance(t, ast.Name)}
+                    elif isinstance(st, ast.AnnAssign) and isinstance(st.target, ast.Name):
+                        class_level.add(st.target.id)
+        reads = {}
+        for fi in methods.values():
+            if not fi.positional_params:
+                continue
+            self_name = fi.positional_params[0]
+            deco = [ast.unparse(d) for d in fi.node.decorator_list]
+            if "classmethod" in deco or "staticmethod" in deco:
+                continue
+            for sub in ast.walk(fi.node):
+                if isinstance(sub, ast.Attribute) and isinstance(sub.ctx, ast.Load) and isinstance(sub.value, ast.Name) and sub.value.id == self_name \
+                        and sub.attr not in class_level and not sub.attr.startswith("__"):
+                    reads.setdefault(sub.attr, (fi, sub))
+        cfg, fl = init.cfg, init.flow
+        exits = [p for p, lab in cfg.pred[cfg.exit] if lab != "exc" and not (cfg.nodes[p].kind == "stmt" and isinstance(cfg.nodes[p].ast, ast.Raise))]
+        no_exc = lambda a, b, l: l != "exc"
+        for attr in sorted(reads):
+            fi, sub = reads[attr]
+            var = "self." + attr
+            assign_nodes = {d.node for d in fl.defs if d.var == var and d.kind in ("assign", "aug", "effect", "for", "with")}
+            reach = {cfg.entry} | cfg.reachable_from(cfg.entry, avoid=assign_nodes, edge_filter=no_exc)
+            leak = [p for p in exits if p in reach and p not in assign_nodes]
+            if not assign_nodes:
+                obs.append(ob_fail(oid, fi, sub, construct="self.%s read in %s, never assigned in __init__" % (attr, fi.name), instance=cls + "." + attr,
+                                   reason="the attribute does not exist on a freshly constructed object: AttributeError at this read"))
+            elif leak:
+                obs.append(ob_fail(oid, init, cfg.nodes[leak[0]].ast if cfg.nodes[leak[0]].ast is not None else init.node,
+                                   construct="a path through __init__ returns without assigning self.%s (read in %s)" % (attr, fi.name),
+                                   instance=cls + "." + attr, reason="the attribute is missing on objects built along that path"))
+            else:
+                obs.append(ob_ok(oid, init, construct="self.%s assigned on every normal path of __init__" % attr, instance=cls + "." + attr,
+                                 reason="read in %s" % fi.name))
+    return obs
